@@ -73,7 +73,8 @@ func DefaultRefNameResolver(doc *T, ref ComponentRef) string {
 		}
 
 		// Remove the path extentions to make this JSON/YAML agnostic.
-		for ext := path.Ext(filePath); len(ext) > 0; ext = path.Ext(filePath) {
+		// (the name of a file such as .pet.json is not an extension)
+		for ext := path.Ext(filePath); len(ext) > 0 && ext != path.Base(filePath); ext = path.Ext(filePath) {
 			filePath = strings.TrimSuffix(filePath, ext)
 		}
 
